@@ -383,8 +383,8 @@ Fixpoint insert_after {A} (k : nat) (x : A) (l : list A) : list A :=
 Inductive place :=
 | PNewAfter                         (* newLineAfter(i) *)
 | PConvert (j : lid)                 (* line j becomes a block, new line appended *)
-| PAppend                           (* append to block *)
-| PAfterIn (k : nat).               (* insert after position k inside the block *)
+| PAppend (b : hblock)              (* append to block b *)
+| PAfterIn (b : hblock) (k : nat).  (* insert after position k inside block b *)
 
 (* what the statement loop of addLine decides at statement st for hint h; None = no match *)
 Definition add_line_at (s : syntax) (h : hint) (verb : str) (st : stmt) : option place :=
@@ -399,10 +399,10 @@ Definition add_line_at (s : syntax) (h : hint) (verb : str) (st : stmt) : option
   | SBlock b =>
       match h with
       | HBlock bid => if Nat.eqb bid (hb_id b)
-                      then if hd_is (hb_tok b) verb then Some PAppend else Some PNewAfter
+                      then if hd_is (hb_tok b) verb then Some (PAppend b) else Some PNewAfter
                       else None
       | HLine i => match pos_of i (hb_lines b) with
-                   | Some k => if hd_is (hb_tok b) verb then Some (PAfterIn k) else Some PNewAfter
+                   | Some k => if hd_is (hb_tok b) verb then Some (PAfterIn b k) else Some PNewAfter
                    | None => None
                    end
       | HTypedNil => None
@@ -431,20 +431,12 @@ Fixpoint add_line_loop (s : syntax) (h : hint) (verb : str) (args : list str)
           let (s3, bid) := fresh_bid s2 in
           let b := mkHB bid no_coms no_coms (firstn 1 (hl_tok l)) [j; n] no_coms in
           (with_stmts s3 (rev done_rev ++ SBlock b :: rest), n)
-      | Some PAppend =>
-          match st with
-          | SBlock b =>
-              let (s1, n) := salloc s (mkHL no_coms args true) in
-              (with_stmts s1 (rev done_rev ++ SBlock (block_with_lines b (hb_lines b ++ [n])) :: rest), n)
-          | _ => (s, O)   (* unreachable: PAppend only for blocks *)
-          end
-      | Some (PAfterIn k) =>
-          match st with
-          | SBlock b =>
-              let (s1, n) := salloc s (mkHL no_coms args true) in
-              (with_stmts s1 (rev done_rev ++ SBlock (block_with_lines b (insert_after k n (hb_lines b))) :: rest), n)
-          | _ => (s, O)   (* unreachable *)
-          end
+      | Some (PAppend b) =>
+          let (s1, n) := salloc s (mkHL no_coms args true) in
+          (with_stmts s1 (rev done_rev ++ SBlock (block_with_lines b (hb_lines b ++ [n])) :: rest), n)
+      | Some (PAfterIn b k) =>
+          let (s1, n) := salloc s (mkHL no_coms args true) in
+          (with_stmts s1 (rev done_rev ++ SBlock (block_with_lines b (insert_after k n (hb_lines b))) :: rest), n)
       end
   end.
 
